@@ -431,7 +431,7 @@ def tagQuestionPh (ty : Typ) (st : PState) : Except Crash PState :=
       else
         affixHopping aux (AT.ofForm f) { neg := !neg, contr := true } tagAgr ++ [.arg pro]
     .ok { st with vpComma := true, sEl := st.sEl ++ [.tag toks] }
-  | _ => .error .attributeError     -- `currV` is None: `currV.getProp`
+  | _ => .ok st                     -- `currV` is None: no tag question (PhraseEn.py: `else: return`)
 
 def whomOrWhat (i : Int) : Str := if i == .woi then s "whom" else s "what"
 
